@@ -338,6 +338,33 @@ def g_containment(mode):
                     pool = r.daemon.transportServer.pool
                     if len(pool.busy) > 0:
                         fail(group="C05", server=st, violated="worker stranded after attack: %d busy" % len(pool.busy))
+    # stalled peers: with a communication timeout configured, clients that send a truncated CONNECT and then just stay connected must not
+    # hold pool workers beyond that timeout
+    RUNS[0] += 1
+    with Running("thread", COMMTIMEOUT=0.3, THREADPOOL_SIZE=2, THREADPOOL_SIZE_MIN=1) as r:
+        r.daemon.register(Bad(), "bad")
+        connect = P.SendingMessage(P.MSG_CONNECT, 0, 1, marshal.serializer_id, marshal.dumps({"handshake": "hello", "object": "bad"})).data
+        stalled = []
+        for cut in (0, 10, len(connect) - 3):
+            c = socket.create_connection(r.addr, timeout=2.0)
+            if cut:
+                c.sendall(connect[:cut])
+            stalled.append(c)
+        time.sleep(1.3)
+        pool = r.daemon.transportServer.pool
+        busy = len(pool.busy)
+        fresh = Raw(r.addr)
+        m = None
+        try:
+            m = fresh.connect("bad")
+        except Exception:      # noqa
+            pass
+        if busy or m is None or m.type != P.MSG_CONNECTOK:
+            fail(group="C05", server="thread", commtimeout=0.3, violated="stalled truncated handshakes still hold %d worker(s) 1.3 s after they began (COMMTIMEOUT 0.3 s); "
+                 "a new client %s" % (busy, "is accepted" if m is not None and m.type == P.MSG_CONNECTOK else "is refused"))
+        fresh.close()
+        for c in stalled:
+            c.close()
 
 
 # ---------------------------------------------------------------------------------------------------------------------
